@@ -103,7 +103,7 @@ theorem step_conservation (L : Lawful P Ok) {cfg : Cfg} {c : Cache σ} (hc : Cac
     intro f hf
     exact findable_mapShards_perm f c.shards 0 (fun j s hj => by simpa using hf j s hj)
   cases op with
-  | ins key ver weight hint phantom =>
+  | ins key ver weight hint phantom loc age =>
     simp only [Cache.step]
     split
     · simp [admittedOf, leftRecs, Cache.findable]
@@ -155,7 +155,7 @@ theorem step_conservation (L : Lawful P Ok) {cfg : Cfg} {c : Cache σ} (hc : Cac
           refine this.trans ?_
           simp [Cache.findable, leftRecs]
       | false =>
-        have sp := emplace_spec (r := { id := c.nextId, key, hash := cfg.H key, ver, weight, hint, phantom := false }) L hsi rfl
+        have sp := emplace_spec (r := { id := c.nextId, key, hash := cfg.H key, ver, weight, hint, phantom := false, loc, age }) L hsi rfl
           (fun x hx => Nat.ne_of_lt (hc.fresh _ s hs x hx))
         generalize Shard.emplace P s _ = res at sp
         obtain ⟨s', lv, pk⟩ := res
